@@ -972,8 +972,8 @@ def rs_freq(ctx):
     stats = vlib.vh(["rsfreq", "all", "--out", p, "--seed", str(ctx.seed), "--runs", "3000"] + ([] if ctx.quick else ["--thorough"]), w)
     n, rej = vlib.adjudicate("P_ReservoirFreq", p, w, parallel=1)
     ctx.judged += n
-    ctx.executed += stats["cases"] * stats["runs"]
-    ctx.e3_calls += stats["cases"] * stats["runs"]
+    ctx.executed += stats["total_runs"]
+    ctx.e3_calls += stats["total_runs"]
     add_rejects(ctx, rej, p, "rsfreq", "P_ReservoirFreq")
     ctx.extra["measured_inclusion_frequencies"] = {"configurations": stats["cases"], "runs_each": stats["runs"], "rejected": len(rej)}
 
